@@ -183,7 +183,7 @@ def build_domain(ctx, rnd):
         fams.append(("two-groups", list(family_two_groups()), 200))
     else:
         fams.append(("plain", list(family_plain(4)), None))
-        fams.append(("one-group", list(family_one_group()), None))
+        fams.append(("one-group", list(family_one_group()), 12000))
         fams.append(("three-alts", list(family_three_alts()), None))
         fams.append(("nested", list(family_nested()), None))
         fams.append(("two-groups", list(family_two_groups()), None))
@@ -353,7 +353,7 @@ def run(ctx):
     # ---- real-only drivers (fast): accept/reject table, random observations, precedence
     randobs = os.path.join(obsdir, "random.ndjson")
     precobs = os.path.join(obsdir, "prec_all.ndjson")
-    nrand = ctx.pick(200, 6000)
+    nrand = ctx.pick(200, 3000)
     jobs = [lambda: rt.drive(ctx, binary, "TestVerifC37Valid", os.path.join(outdir, "valid.ndjson"),
                              env={"VERIF_DOMAINS": ",".join(ex_dom), "VERIF_TABLES": ",".join(ex_tabs)}, timeout=1500),
             lambda: rt.drive(ctx, binary, "TestVerifC37Random", randobs, env={"VERIF_N": nrand, "VERIF_NPATHS": 6}, timeout=1500),
